@@ -131,6 +131,15 @@ func Run(o *drv.Out) {
 					r.Shuffle(len(cs), func(i, j int) { cs[i], cs[j] = cs[j], cs[i] })
 					v := &fsm.Validator{Address: pub.Address().Bytes(), PublicKey: pub.Bytes(), StakedAmount: stake,
 						Committees: cs, Output: pub.Address().Bytes(), Delegate: r.Intn(4) == 0}
+					if r.Intn(2) == 0 {
+						// non-custodial: the payout address is unrelated to the operator address (and to its order)
+						out := make([]byte, 20)
+						for k := range out {
+							out[k] = byte(r.Intn(256))
+						}
+						v.Output = out
+						o.Count("validator:non-custodial")
+					}
 					if r.Intn(6) == 0 {
 						v.MaxPausedHeight = uint64(1 + r.Intn(50))
 					}
